@@ -59,6 +59,8 @@ type httpResp struct {
 	Header [][2]string
 	Body   []byte
 	Chunks []int
+	// Drop: the backend has read the request and goes away without answering (it crashed on it)
+	Drop bool
 }
 
 type httpBackend struct {
@@ -105,6 +107,9 @@ func (b *httpBackend) serve() {
 				b.mu.Unlock()
 				rs := b.resp(tag, n[tag])
 				n[tag]++
+				if rs.Drop {
+					return
+				}
 				var hb bytes.Buffer
 				fmt.Fprintf(&hb, "HTTP/1.1 %d %s\r\n", rs.Status, http.StatusText(rs.Status))
 				for _, h := range rs.Header {
@@ -357,6 +362,10 @@ func scenarios(tier string, seed int64) []scenario {
 		r := core.NewRng(seed, "C15/scn", i)
 		out = append(out, scenario{Kind: "http", Sub: i, Mode: "lockstep", Cut: -1, Clients: r.PickI([]int{1, 1, 2, 3})})
 		out = append(out, scenario{Kind: "http", Sub: i, Mode: "pipelined", Cut: -1, Clients: 1})
+		if i%4 == 0 {
+			// the backend reads the last request of the sequence and closes without answering
+			out = append(out, scenario{Kind: "http-drop", Sub: i, Mode: "drop-last", Cut: -1, Clients: 1})
+		}
 		// single cut points: all for short streams, sampled beyond
 		total := 0
 		for _, q := range httpSeq(seed, i) {
@@ -704,6 +713,85 @@ func (e *env) runHTTP(sc scenario, ob *obs) {
 		if n != len(got) {
 			ob.bad("event-count", "%d requests of client %s were relayed, %d events carry its address", len(got), addr, n)
 		}
+	}
+}
+
+// runHTTPDrop: a lock-step client whose last request the backend reads and then drops the connection without an
+// answer. Every request that reached the backend was relayed and must have its event, answered or not.
+func (e *env) runHTTPDrop(sc scenario, ob *obs) {
+	seq := httpSeq(e.seed, sc.Sub)
+	e.hb.mu.Lock()
+	e.hb.got = map[string][]httpReq{}
+	e.hb.resp = func(tag string, i int) httpResp {
+		if i >= len(seq)-1 {
+			return httpResp{Drop: true}
+		}
+		return httpRespFor(e.seed, sc.Sub, i, seq[i].Method == "HEAD")
+	}
+	e.hb.mu.Unlock()
+	ev0 := lab.Events.Len()
+	ip, port := nextAddr()
+	tag := fmt.Sprintf("d%d", connSeq)
+	addr := fmt.Sprintf("%s:%d", ip, port)
+	cc := e.srv.L.DialTCP(lab.TCPAddr("10.0.0.1", 8080), lab.TCPAddr(ip, port))
+	cl := lab.NewClient(cc)
+	pos := 0
+	for i, q := range seq {
+		cl.Send(render(q, tag), 3*time.Second)
+		if i == len(seq)-1 {
+			break
+		}
+		ok := cl.WaitFor(func(b []byte) bool {
+			r, err := http.ReadResponse(bufio.NewReader(bytes.NewReader(b[pos:])), &http.Request{Method: q.Method})
+			if err != nil {
+				return false
+			}
+			bd, err := io.ReadAll(r.Body)
+			if err != nil {
+				return false
+			}
+			he := bytes.Index(b[pos:], []byte("\r\n\r\n"))
+			pos += he + 4 + len(bd)
+			return true
+		}, 4*time.Second)
+		if !ok {
+			ob.bad("reply-missing|drop-last", "request %d of %d got no (complete) reply within 4 s", i, len(seq))
+			cl.Close()
+			return
+		}
+	}
+	// wait until the backend has the last request (or 3 s), then for the proxy to notice the closed backend
+	deadline := time.Now().Add(3 * time.Second)
+	for time.Now().Before(deadline) {
+		e.hb.mu.Lock()
+		n := len(e.hb.got[tag])
+		e.hb.mu.Unlock()
+		if n >= len(seq) {
+			break
+		}
+		time.Sleep(2 * time.Millisecond)
+	}
+	time.Sleep(30 * time.Millisecond)
+	cl.Close()
+	lab.Events.Settle(2*time.Millisecond, 30*time.Millisecond)
+	e.hb.mu.Lock()
+	got := len(e.hb.got[tag])
+	for _, g := range e.hb.got[tag] {
+		ob.Backend += len(g.Body) + len(g.Target)
+	}
+	e.hb.mu.Unlock()
+	if got != len(seq) {
+		ob.bad("request-count|drop-last", "backend received %d of the %d requests of one client connection", got, len(seq))
+	}
+	n := 0
+	for _, c := range lab.Events.Since(ev0) {
+		if lab.Str(c.Rec, "service") == "http-proxy" && lab.Str(c.Rec, "remote-addr") == addr {
+			n++
+		}
+	}
+	ob.Events += n
+	if n != got {
+		ob.bad("event-count|backend-dropped-the-last-request", "%d requests of client %s reached the backend (the last one was not answered), %d events carry its address", got, addr, n)
 	}
 }
 
@@ -1107,6 +1195,8 @@ func (prop) Child(b core.Batch, o *core.Obs) {
 		switch sc.Kind {
 		case "http":
 			e.runHTTP(sc, &ob)
+		case "http-drop":
+			e.runHTTPDrop(sc, &ob)
 		case "copy-tcp":
 			e.runCopyTCP(sc, &ob)
 		case "copy-udp":
